@@ -14,7 +14,7 @@ import dates as D   # noqa: E402
 from parallel import driver_parallel  # noqa: E402
 
 GEN = ['DateK', 'Calendar', 'DateLogic']
-PROPS = ['FinVerif.Props.C16']
+PROPS = ['FinVerif.Props.C16', 'FinVerif.Props.C16b']
 DRIVERS = ['FinVerif.Driver.C16']
 SPEC_DRIVERS = ['FinVerif.Driver.C16Spec']
 
@@ -180,7 +180,7 @@ def run(ctx):
     ctx.count('Schedule.generate', len(ops), nontriv, sample={'op': ops[len(ops) // 2], 'impl': impl[len(ops) // 2]})
     ctx.cov['components']['Schedule.generate'].update({'not_acceptable': nb_s, 'disagree_model': nb_m})
 
-    inheritance(ctx, rng)
+    inheritance(ctx, rng, drivers_ok)
 
     ctx.assumptions += [
         'the ideal schedule (FinVerif/Spec/Schedule.lean) is my reading of the ISDA roll rule: rolls computed from the anchor, interior dates adjusted, effective date never adjusted, termination adjusted iff requested',
@@ -191,7 +191,7 @@ def run(ctx):
                     RULE)
 
 
-def inheritance(ctx, rng):
+def inheritance(ctx, rng, drivers_ok=True):
     """Products built on schedules inherit exactly the schedule's dates."""
     from financepy.utils.date import Date
     from financepy.utils.calendar import CalendarTypes, BusDayAdjustTypes, DateGenRuleTypes
@@ -252,6 +252,135 @@ def inheritance(ctx, rng):
         except FinError:
             pass
     ctx.count('inheritance (swap legs, bond)', cnt)
+    inheritance_more(ctx, rng, drivers_ok)
+
+
+def inheritance_more(ctx, rng, drivers_ok=True):
+    """CDS premium dates, cap/floor caplet dates and FRN coupon dates.
+
+    The CDS has its own roll generator: its payment dates must be the business-day adjustments of the regular roll
+    dates obtained by stepping whole periods from the anchor (maturity for BACKWARD, step-in for FORWARD) — the first
+    one, on or before the step-in date, is the previous coupon date and is not a payment date.  The reference is
+    computed with Date.add_months / Calendar.adjust, which C13 / C14 tie to their Lean models."""
+    from financepy.utils.date import Date
+    from financepy.utils.calendar import Calendar, CalendarTypes, BusDayAdjustTypes, DateGenRuleTypes
+    from financepy.utils.frequency import FrequencyTypes, annual_frequency
+    from financepy.utils.schedule import Schedule
+    from financepy.utils.day_count import DayCountTypes
+    from financepy.utils.global_types import FinCapFloorTypes
+    from financepy.products.credit.cds import CDS
+    from financepy.products.rates.ibor_cap_floor import IborCapFloor
+    from financepy.products.bonds.bond_frn import BondFRN
+    from financepy.utils.error import FinError
+    n = 400 if ctx.quick() else 6000
+    cnt = 0
+    freqs = [FrequencyTypes.ANNUAL, FrequencyTypes.SEMI_ANNUAL, FrequencyTypes.QUARTERLY, FrequencyTypes.MONTHLY]
+    cds_ops, cds_impl, cds_case = [], [], []
+    Q, S, M = FrequencyTypes.QUARTERLY, FrequencyTypes.SEMI_ANNUAL, FrequencyTypes.MONTHLY
+    BW, FW = DateGenRuleTypes.BACKWARD, DateGenRuleTypes.FORWARD
+    cases = [
+        ((30, 5, 1990), (2, 12, 1991), S, CalendarTypes.ITALY, BusDayAdjustTypes.FOLLOWING, FW),   # duplicate payment date
+        ((20, 12, 2008), (20, 3, 2010), Q, CalendarTypes.WEEKEND, BusDayAdjustTypes.FOLLOWING, BW),  # ISDA standard example
+        ((20, 2, 2009), (20, 3, 2010), Q, CalendarTypes.WEEKEND, BusDayAdjustTypes.FOLLOWING, FW),
+        ((31, 1, 2060), (31, 7, 2060), M, CalendarTypes.NONE, BusDayAdjustTypes.NONE, BW),          # month-end rolls: no drift
+        ((31, 1, 2004), (31, 1, 2009), M, CalendarTypes.AUSTRALIA, BusDayAdjustTypes.PRECEDING, FW),
+        ((20, 3, 2010), (20, 3, 2010), Q, CalendarTypes.WEEKEND, BusDayAdjustTypes.FOLLOWING, BW),   # step-in = maturity
+        ((21, 3, 2010), (20, 3, 2010), Q, CalendarTypes.WEEKEND, BusDayAdjustTypes.FOLLOWING, BW),   # step-in after maturity
+    ]
+    for t in D.interesting_dates(rng, n, 1990, 2060):
+        e = Date(*t)
+        months = rng.choice([6, 12, 18, 24, 60, 37, 3, 1])
+        tt = e.add_months(months)
+        if rng.random() < 0.3:
+            tt = tt.add_days(rng.randint(1, 40))
+        cases.append((t, (tt.d, tt.m, tt.y), rng.choice(freqs), rng.choice(list(CalendarTypes)),
+                      rng.choice(list(BusDayAdjustTypes)), rng.choice(list(DateGenRuleTypes))))
+    for t, t2, f, cal, cv, dg in cases:
+        e, tt = Date(*t), Date(*t2)
+        case = {'step_in': t, 'maturity': (tt.d, tt.m, tt.y), 'freq': f.name, 'cal': cal.name, 'conv': cv.name, 'rule': dg.name}
+        # ---- CDS (own roll generator): implementation now, model and spec after the loop
+        p = int(12 / annual_frequency(f))
+        op = f'CDS {t[0]} {t[1]} {t[2]} {tt.d} {tt.m} {tt.y} {p} {cal.value} {cv.value} {int(dg == DateGenRuleTypes.BACKWARD)}'
+        try:
+            cds = CDS(e, tt, 0.01, 1e6, True, f, DayCountTypes.ACT_360, cal, cv, dg)
+            got = fmtl(cds.payment_dts) + ' | ' + fmtl(cds.accrual_start_dts)
+            ends = [d.add_days(-1) for d in cds.accrual_start_dts[1:]] + [tt]
+            if fmtl(cds.accrual_end_dts) != fmtl(ends):
+                ctx.violation('CDS accrual end dates are not (next accrual start − 1 day) … maturity',
+                              dict(case, accrual_end=fmtl(cds.accrual_end_dts)), clause='inheritance-cds')
+        except FinError:
+            got = 'E:FinError'
+        except Exception as ex:  # noqa: BLE001
+            got = 'E:' + type(ex).__name__
+        cds_ops.append(op)
+        cds_impl.append(got)
+        cds_case.append(case)
+        cnt += 1
+        # ---- cap/floor and FRN: plain Schedule users
+        try:
+            sched = fmtl(Schedule(e, tt, f, cal, cv, dg).adjusted_dts)
+        except FinError:
+            continue
+        try:
+            cap = IborCapFloor(e, tt, FinCapFloorTypes.CAP, 0.03, None, f, DayCountTypes.ACT_360, 1e6, cal, cv, dg)
+            cap._generate_dts()       # what value() calls first
+            cnt += 1
+            if fmtl(cap.capFloorLetDates) != sched:
+                ctx.violation('IborCapFloor caplet dates differ from the Schedule built from the same inputs',
+                              dict(case, schedule=sched, cap=fmtl(cap.capFloorLetDates)), clause='inheritance')
+        except FinError:
+            pass
+        try:
+            frn = BondFRN(e, tt, 0.01, f, DayCountTypes.ACT_360, cal)
+            ref = Schedule(e, tt, f, frn.cal_type, BusDayAdjustTypes.NONE, DateGenRuleTypes.BACKWARD)
+            once, twice = fmtl(ref.adjusted_dts), None
+            cnt += 1
+            if fmtl(frn.cpn_dts) != once:
+                twice = fmtl(Schedule(e, tt, f, frn.cal_type, BusDayAdjustTypes.NONE, DateGenRuleTypes.BACKWARD).generate())
+                regen = fmtl(frn.cpn_dts) == twice
+                ctx.violation('BondFRN.cpn_dts differ from the Schedule built from the same inputs',
+                              dict(case, schedule=once, frn=fmtl(frn.cpn_dts), equals_second_generate=regen), clause='inheritance',
+                              finding='C16/regenerate-reanchors' if regen else None)
+        except FinError:
+            pass
+    # CDS: implementation vs model (exact) and vs spec (payment dates = adjusted whole-period rolls)
+    spec = model = None
+    try:
+        spec = C.run_driver('C16Spec', cds_ops)
+    except C.DriverError as ex:
+        ctx.broke('spec driver failed on CDS ops: ' + str(ex)[:300])
+    if drivers_ok:
+        try:
+            model = C.run_driver('C16', cds_ops)
+        except C.DriverError as ex:
+            ctx.broke('model driver failed on CDS ops: ' + str(ex)[:300])
+    nb_m = 0
+    for i, op in enumerate(cds_ops):
+        ok = True
+        if spec is not None:
+            if spec[i].startswith('E:'):
+                ok = cds_impl[i] == spec[i]
+                strict, ideal = None, spec[i]
+            else:
+                strict, ideal = spec[i][0] == '1', spec[i][2:].strip()
+                ok = cds_impl[i].split(' | ')[0].strip() == ideal
+            if not ok:
+                ctx.violation('CDS.payment_dts are not the adjusted regular roll dates stepped in whole periods from the anchor',
+                              dict(cds_case[i], op=op, ideal=ideal, implementation=cds_impl[i], model=model[i] if model else None),
+                              clause='inheritance-cds')
+            elif strict is False:
+                # the ideal itself has coinciding dates: the CDS keeps the duplicate (zero-length accrual period)
+                fnd = 'C16/cds-duplicate-payment-date'
+                if model is not None and model[i] != cds_impl[i]:
+                    fnd = None
+                ctx.violation('CDS.payment_dts are not strictly increasing (an adjusted roll date collides with its neighbour)',
+                              dict(cds_case[i], op=op, implementation=cds_impl[i]), clause='inheritance-cds-duplicate', finding=fnd)
+        if model is not None and model[i] != cds_impl[i]:
+            nb_m += 1
+            if ok and nb_m <= 3:
+                ctx.broke(f'correspondence CDS dates: model≠implementation on `{op}` (model {model[i]}, impl {cds_impl[i]})')
+    ctx.count('inheritance (CDS, cap/floor, FRN)', cnt)
+    ctx.cov['components']['inheritance (CDS, cap/floor, FRN)'].update({'cds_disagree_model': nb_m})
 
 
 def replay(ctx, path):
@@ -262,6 +391,8 @@ def replay(ctx, path):
         return 1
     op = v['case']['op']
     C.import_financepy()
+    if op.startswith('CDS'):
+        return replay_cds(ctx, path, op)
     from financepy.utils.date import Date
     from financepy.utils.calendar import CalendarTypes, BusDayAdjustTypes, DateGenRuleTypes
     from financepy.utils.frequency import FrequencyTypes, annual_frequency
@@ -278,6 +409,31 @@ def replay(ctx, path):
     sp = C.run_driver('C16Spec', [op])[0]
     ok, ideal, strict = judge(sp, r)
     print(f'replay {op}: implementation={r} ideal={ideal} strict={strict} acceptable={ok}')
+    if not ok:
+        print(f'VIOLATION property=C16 replay={path}')
+        return 1
+    return 0
+
+
+def replay_cds(ctx, path, op):
+    from financepy.utils.date import Date
+    from financepy.utils.calendar import CalendarTypes, BusDayAdjustTypes, DateGenRuleTypes
+    from financepy.utils.frequency import FrequencyTypes, annual_frequency
+    from financepy.utils.day_count import DayCountTypes
+    from financepy.products.credit.cds import CDS
+    p = list(map(int, op.split()[1:]))
+    fr = [f for f in FrequencyTypes if f.value > 0 and f != FrequencyTypes.CONTINUOUS and int(12 / annual_frequency(f)) == p[6]][0]
+    try:
+        c = CDS(Date(p[0], p[1], p[2]), Date(p[3], p[4], p[5]), 0.01, 1e6, True, fr, DayCountTypes.ACT_360,
+                CalendarTypes(p[7]), BusDayAdjustTypes(p[8]), DateGenRuleTypes.BACKWARD if p[9] else DateGenRuleTypes.FORWARD)
+        r = fmtl(c.payment_dts)
+    except Exception as e:  # noqa: BLE001
+        r = 'E:' + type(e).__name__
+    sp = C.run_driver('C16Spec', [op])[0]
+    ideal = sp if sp.startswith('E:') else sp[2:].strip()
+    strict = None if sp.startswith('E:') else sp[0] == '1'
+    ok = r == ideal and strict is not False
+    print(f'replay {op}: implementation={r} ideal={ideal} strictly_increasing={strict} acceptable={ok}')
     if not ok:
         print(f'VIOLATION property=C16 replay={path}')
         return 1
